@@ -596,9 +596,6 @@ func risky(q, script string) string {
 
 // ---------------------------------------------------------------- Exec
 
-// set once a cycle along the first-element chain (which the shipped detector catches) went undetected
-var firstChainBroken bool
-
 func execValue(q, script string) hx.Result {
 	v := build(script)
 	g := graphOf(v)
@@ -656,8 +653,10 @@ func execValue(q, script string) hx.Result {
 			var o string
 			if cyc && q == "N" {
 				o = risky(q, script)
-			} else if cyc && q == "S" && firstChainBroken && g.cycleClass(cycle) == "cycle-on-first-element-chain" {
-				o = risky("s", script) // this tree no longer detects first-element cycles: do not unroll each of them for seconds
+			} else if cyc && q == "S" && g.cycleClass(cycle) == "cycle-on-first-element-chain" {
+				// the shipped detector rejects this at once; a tree that does not would unroll ~5*10^5 calls (seconds per
+				// case, hours per run): run it with a small stack in the grandchild, where that is a quick "crash"
+				o = risky("s", script)
 			} else if q == "S" {
 				var b []byte
 				o, b = runSer(v)
@@ -688,12 +687,16 @@ func execValue(q, script string) hx.Result {
 		res.Kind = kind + "-" + kk
 		// ---- property predicate on the implementation's own outputs
 		if cyc {
-			if len(set) != 1 || !set["err:cycle"] {
+			bad := false
+			for o := range set {
+				// BuildParamToNative rejects every map with ERR_BAD_TYPE before descending into it: also a prompt rejection
+				if o != "err:cycle" && !(q == "N" && o == "err:badtype") {
+					bad = true
+				}
+			}
+			if bad {
 				res.Fail = "a value with a reachable reference cycle is not (always) rejected as circular: outcomes " + trunc(ks, 80)
 				res.Class = g.cycleClass(cycle)
-				if res.Class == "cycle-on-first-element-chain" {
-					firstChainBroken = true
-				}
 			}
 			return res
 		}
@@ -1230,6 +1233,7 @@ func main() {
 			"D M;k0,i0,i0;k0,i1,r0", "S M;k0,i0,i0;k0,i1,r0;k0,i2,z65536", "N M;k0,i0,i0;k0,i1,r0",
 			"D M;A;A;A;A;A;A;A;A;A;A;p2,r1;p3,r2;p4,r3;p5,r4;p6,r5;p7,r6;p8,r7;p9,r8;p10,r9;k0,i0,i0;k0,i1,r10",
 			"S M;A;A;A;A;A;A;A;A;A;A;p2,r1;p3,r2;p4,r3;p5,r4;p6,r5;p7,r6;p8,r7;p9,r8;p10,r9;k0,i0,i0;k0,i1,r10",
+			"S M;A;p1,i1;A;p2,r1;A;p3,r2;A;p4,r3;A;p5,r4;A;p6,r5;A;p7,r6;A;p8,r7;A;p9,r8;A;p10,r9;k0,i0,i0;k0,i1,r10", "D M;A;p1,i1;A;p2,r1;A;p3,r2;A;p4,r3;A;p5,r4;A;p6,r5;A;p7,r6;A;p8,r7;A;p9,r8;A;p10,r9;k0,i0,i0;k0,i1,r10", "N M;A;p1,i1;A;p2,r1;A;p3,r2;A;p4,r3;A;p5,r4;A;p6,r5;A;p7,r6;A;p8,r7;A;p9,r8;A;p10,r9;k0,i0,i0;k0,i1,r10",
 			"S M;k0,i1,i5;k0,b01,i6;k0,T,i7;k0,i0,F;k0,b-,T;k0,b00,i3",
 			// depth rule: 11 nested arrays through element 0 (innermost empty / non-empty), and through element 1
 			"S A;A;A;A;A;A;A;A;A;A;A;p1,r0;p2,r1;p3,r2;p4,r3;p5,r4;p6,r5;p7,r6;p8,r7;p9,r8;p10,r9;Rr10",
@@ -1247,7 +1251,7 @@ func main() {
 			"X 80fd0004+r1024x0100", "X 80fd0104+r1025x0100", "X 80fd0104+r1024x0100", "X 81fd0104+r1025x0100", "X 82fd0104+r1025x02020001+0100",
 			"X r1024x8001+8000", "X r1025x8001+8000", "X r1026x8001+8000", "X r1025x8101+0100", "X r1025x820100+0100", "X r1026x820100+0100",
 		},
-		N: map[string]int{"quick": 2500, "thorough": 100000},
+		N: map[string]int{"quick": 2500, "thorough": 60000},
 	}
 	defer subKill()
 	if len(os.Args) > 2 && os.Args[1] == "-timing" { // dev aid: which generated lines are slow
